@@ -56,7 +56,8 @@ def graph_run(prop, tier, seed, module, mc_module, cfgs, required_tags, level_no
             # besides the transition-by-transition replay: random walks through the graph executed as whole behaviours on one object
             os.environ["VH_WALKS"] = os.environ.get("VERIF_WALKS", "200" if tier == "quick" else "1000")
             try:
-                vlib.run_vh(["replay", module, "--cfg", cfgjson, "--edges", graph, "--out", rep_path, "--maxdiv", "2"])
+                vlib.run_vh(["replay", module, "--cfg", cfgjson, "--edges", graph, "--out", rep_path, "--maxdiv", "2"],
+                            timeout=(3600 if tier == "quick" else 14400))
             finally:
                 os.environ.pop("VH_SHUFFLE", None)
                 os.environ.pop("VH_WALKS", None)
@@ -230,7 +231,7 @@ PROPS = {
     "C30": simprop(scenarios.c30, ["C30"], {"listener": 20, "offered": 10, "offeredmiss": 5, "requestedmiss": 10, "final": 30},
                    spec="Trace_Worker", mc=None, norm=tracenorm.normalise_worker),
     "C31": simprop(scenarios.c31, ["C31"], {"sleep": 2000}, spec="Trace_Worker", mc=None, norm=tracenorm.normalise_worker, keep_sleep=True),
-    "C28": graphprop("WriterInst", "WriterInst", ["MC_WriterInst.cfg", "MC_WriterInst_walk.cfg"],
+    "C28": graphprop("WriterInst", "WriterInst", ["MC_WriterInst.cfg", "MC_WriterInst_walk.cfg", "MC_WriterInst_limit.cfg"],
                      ["register:new", "register:idempotent", "register:not-enabled", "register:keyless", "unregister:unknown",
                       "unregister:registered", "unregister:keyless", "unregister:not-enabled", "dispose:unknown", "dispose:registered",
                       "dispose:keyless", "dispose:not-enabled", "write:implicit-registration", "write:not-enabled",
@@ -257,14 +258,15 @@ PROPS = {
                              "DcpsStatusCondition driven through the cfg(dust_dds_verif) re-export with real notification channels"),
                    simprop(scenarios.c32, ["C32"], {"waits": 20, "waitwoken": 10}, spec="Trace_Worker", mc=None,
                            norm=tracenorm.normalise_worker)),
-    "C18": rc("C18", {"quick": C("C18", "C18b", "C18c", "C18d", "C18_walk"), "thorough": C("C18", "C18b", "C18c", "C18d", "C18_walk")},
+    # (C21b / C21c: KEEP_LAST under BY_SOURCE_TIMESTAMP, where the stored order differs from the reception order that decides the eviction)
+    "C18": rc("C18", {"quick": C("C18", "C18b", "C18c", "C18d", "C21b", "C21c", "C18_walk"), "thorough": C("C18", "C18b", "C18c", "C18d", "C21b", "C21c", "C18_walk")},
               ["history:keep-last-replaces-oldest"]),
     "C19": rc("C19", {"quick": C("C19", "C19b", "C19c", "C19d", "C19e", "C19_walk"), "thorough": C("C19", "C19b", "C19c", "C19d", "C19e", "C19_walk")}, ["limits:rejected"]),
-    "C20": rc("C20", {"quick": C("C20", "C20b"), "thorough": C("C20", "C20b")}, ["access", "access:specific-instance", "access:unknown-instance"]),
+    "C20": rc("C20", {"quick": C("C20", "C20b", "C20_walk"), "thorough": C("C20", "C20b", "C20_walk")}, ["access", "access:specific-instance", "access:unknown-instance"]),
     "C21": rc("C21", {"quick": C("C21", "C21b", "C21c", "C21_walk"), "thorough": C("C21", "C21b", "C21c", "C21_walk")}, ["order:inserted-before-later-timestamp"]),
     "C22": rc("C22", {"quick": C("C22", "C22b", "C22c", "C22_walk"), "thorough": C("C22", "C22b", "C22c", "C22_walk")},
               ["state:rebirth", "state:unregister-while-other-writers-remain"]),
-    "C23": rc("C23", {"quick": C("C23"), "thorough": C("C23")},
+    "C23": rc("C23", {"quick": C("C23", "C23_walk"), "thorough": C("C23", "C23_walk")},
               ["nextinstance", "nextinstance:skips-instance-without-matching-samples", "nextinstance:none"]),
     "C24": combine(rc("C24", {"quick": C("C24", "C24b", "C24_walk"), "thorough": C("C24", "C24b", "C24_walk")},
                       ["ownership:weaker-writer-ignored", "ownership:stronger-writer-takes-over",
@@ -420,6 +422,16 @@ def c15_run(prop, tier, seed):
     nq = 120 if tier == "quick" else 1500
     npart = 120 if tier == "quick" else len(pcases)
     qs = rng.sample(qcases, min(nq, len(qcases)))
+    # always end to end: the cases in which only one duration-valued policy is off the default and takes the largest finite value
+    # (boundary of the wire encoding; the in-memory functions cannot see what the discovery encoding does to it)
+    DEFAULTS = {"durability": {"o": 0, "r": 0}, "reliability": {"o": 1, "r": 0}, "liveliness": {"ok": 0, "ol": 4, "rk": 0, "rl": 4},
+                "deadline": {"o": 4, "r": 4}, "latency": {"o": 0, "r": 0}, "destorder": {"o": 0, "r": 0}, "ownership": {"o": 0, "r": 0},
+                "presentation": {"oa": 0, "oc": False, "oo": False, "ra": 0, "rc": False, "ro": False}, "representation": {"o": [], "r": []}}
+
+    def _boundary(c):
+        off = [g for g in c["q"] if c["q"][g] != DEFAULTS[g]]
+        return len(off) == 1 and off[0] in ("deadline", "latency", "liveliness") and 3 in [v for k, v in c["q"][off[0]].items() if k in ("o", "r", "ol", "rl")]
+    qs += [c for c in qcases if _boundary(c) and c not in qs]
     ps = rng.sample(pcases, min(npart, len(pcases)))
     default_q = next(c for c in qcases if c["inc"] == [])
     e2e = [{"q": c["q"], "pp": [], "sp": [], "expect": c["inc"] == [], "why": c["inc"]} for c in qs]
@@ -433,13 +445,13 @@ def c15_run(prop, tier, seed):
         scen.append({"name": f"C15-e2e-{k}", "family": "e2e", "seed": seed, "frag": 1344, "steps": steps})
     # dynamic family: the requested deadline of the reader changes after discovery; the verdict of the
     # specification for the NEW pair must be reached by both sides (incompatible -> compatible and back)
-    dl_ms = {1: 1000, 2: 2000, 3: None}
+    dl_ms = {1: 1000, 2: 2000, 4: None}
     dl_cases = {(c["q"]["deadline"]["o"], c["q"]["deadline"]["r"]): c["inc"] == [] for c in qcases
                 if all(c["q"][g] == default_q["q"][g] for g in c["q"] if g != "deadline")}
     dyn = []
-    for o in (1, 2, 3):
-        for ra in (1, 2, 3):
-            for rb in (1, 2, 3):
+    for o in (1, 2, 4):
+        for ra in (1, 2, 4):
+            for rb in (1, 2, 4):
                 if ra == rb:
                     continue
                 dyn.append({"o": o, "r1": ra, "r2": rb, "first": dl_cases[(o, ra)], "second": dl_cases[(o, rb)]})
